@@ -144,37 +144,46 @@ def theorem_at(path: Path, line: int):
 def build_and_audit(pid, log):
     """lake build Props.<pid> + driver, then #print axioms. Returns dict."""
     res = {"build_ok": False, "theorems": {}, "broken": [], "forbidden": [], "output": "", "driver_ok": False}
-    with lean_lock(shared=False):
-        t0 = time.time()
-        rc, out = run(["lake", "build", f"BnpVerif.Props.{pid}"])
-        res["build_s"] = round(time.time() - t0, 1)
-        res["output"] = out[-6000:]
-        res["build_ok"] = rc == 0
-        if rc != 0:
-            for m in re.finditer(r"error: ([^\s:]+\.lean):(\d+):(\d+)", out):
-                name = theorem_at(LEAN / m.group(1), int(m.group(2)))
-                if name and name not in res["broken"]:
-                    res["broken"].append(name)
-            if not res["broken"]:
-                res["broken"].append(f"lake build BnpVerif.Props.{pid} failed")
-        rc2, out2 = run(["lake", "build", "driver"])
-        res["driver_ok"] = rc2 == 0
-        if rc2 != 0:
-            res["driver_output"] = out2[-4000:]
-        audit = LEAN / "BnpVerif" / "Audit" / f"{pid}.lean"
-        names = re.findall(r"^#print axioms\s+(\S+)", audit.read_text(), re.M) if audit.exists() else []
-        res["declared"] = names
-        if res["build_ok"] and audit.exists():
+    t0 = time.time()
+    # fast path: nothing to rebuild (read-only check under the shared lock, so concurrent checks do not serialise)
+    with lean_lock(shared=True):
+        rc0, _ = run(["lake", "build", "--no-build", f"BnpVerif.Props.{pid}", "driver"])
+    if rc0 == 0:
+        res["build_ok"] = True
+        res["driver_ok"] = True
+        res["output"] = "up to date"
+    else:
+        with lean_lock(shared=False):
+            rc, out = run(["lake", "build", f"BnpVerif.Props.{pid}"])
+            res["output"] = out[-6000:]
+            res["build_ok"] = rc == 0
+            if rc != 0:
+                for m in re.finditer(r"error: ([^\s:]+\.lean):(\d+):(\d+)", out):
+                    name = theorem_at(LEAN / m.group(1), int(m.group(2)))
+                    if name and name not in res["broken"]:
+                        res["broken"].append(name)
+                if not res["broken"]:
+                    res["broken"].append(f"lake build BnpVerif.Props.{pid} failed")
+            rc2, out2 = run(["lake", "build", "driver"])
+            res["driver_ok"] = rc2 == 0
+            if rc2 != 0:
+                res["driver_output"] = out2[-4000:]
+    res["build_s"] = round(time.time() - t0, 1)
+    audit = LEAN / "BnpVerif" / "Audit" / f"{pid}.lean"
+    names = re.findall(r"^#print axioms\s+(\S+)", audit.read_text(), re.M) if audit.exists() else []
+    res["declared"] = names
+    if res["build_ok"] and audit.exists():
+        with lean_lock(shared=True):
             rc3, out3 = run(["lake", "env", "lean", str(audit.relative_to(LEAN))])
-            for m in re.finditer(r"'([^']+)' depends on axioms: \[([^\]]*)\]", out3, re.S):
-                res["theorems"][m.group(1)] = [a.strip() for a in m.group(2).replace("\n", " ").split(",") if a.strip()]
-            for m in re.finditer(r"'([^']+)' does not depend on any axioms", out3):
-                res["theorems"][m.group(1)] = []
-            for n in names:
-                if n not in res["theorems"]:
-                    res["broken"].append(f"{n} (missing from audit)")
-                elif not set(res["theorems"][n]) <= ALLOWED_AXIOMS:
-                    res["broken"].append(f"{n} (axioms {res['theorems'][n]})")
+        for m in re.finditer(r"'([^']+)' depends on axioms: \[([^\]]*)\]", out3, re.S):
+            res["theorems"][m.group(1)] = [a.strip() for a in m.group(2).replace("\n", " ").split(",") if a.strip()]
+        for m in re.finditer(r"'([^']+)' does not depend on any axioms", out3):
+            res["theorems"][m.group(1)] = []
+        for n in names:
+            if n not in res["theorems"]:
+                res["broken"].append(f"{n} (missing from audit)")
+            elif not set(res["theorems"][n]) <= ALLOWED_AXIOMS:
+                res["broken"].append(f"{n} (axioms {res['theorems'][n]})")
     res["forbidden"] = grep_forbidden(lean_sources_for(pid))
     if res["forbidden"]:
         res["broken"].append("forbidden construct: " + "; ".join(res["forbidden"][:3]))
@@ -231,12 +240,28 @@ def case_hash(case):
 _EVAL_MOD = None
 
 
+class CaseTimeout(Exception):
+    pass
+
+
+def _alarm(*_):
+    raise CaseTimeout("implementation did not return within the per-case limit")
+
+
 def _eval_one(c):
+    """one case on the real implementation, under a per-case wall-clock limit (a hang is an observation, not a stuck check)"""
+    import signal
     mod = _EVAL_MOD
+    limit = int(getattr(mod, "CASE_TIMEOUT_S", 120))
+    old = signal.signal(signal.SIGALRM, _alarm)
+    signal.alarm(limit)
     try:
         got = mod.impl(c)
     except Exception as e:
         got = "E:harness:" + type(e).__name__ + ":" + str(e)[:200]
+    finally:
+        signal.alarm(0)
+        signal.signal(signal.SIGALRM, old)
     return got, mod.oracle(c)
 
 
